@@ -9,6 +9,7 @@ package pc18
 
 import (
 	"fmt"
+	"reflect"
 	"time"
 
 	"github.com/element-of-surprise/coercion/plugins"
@@ -55,10 +56,13 @@ type Req struct {
 // Resp is the response type of the test plugins: same shape as Req, distinct type.
 type Resp Req
 
-// Leaf, Mid and NReq form the second request type: NReq has NO reference-kind field of its own (only strings, numbers,
-// struct fields and an array field); every slice, map and pointer sits one struct level down (Inner: Sub.Blob, Sub.Tags),
-// two levels down (Mid.Leaf.*) or inside the elements of an array field (Pair). A copy routine that decides "flat, a plain
-// assignment copies it all" from the direct fields only copies such a value shallowly.
+// The "nested reference" request types. None of them has a reference-kind field (pointer, slice, map, interface) of its
+// own: only strings, numbers and ONE struct-valued or array-valued field, and every slice, map and pointer sits below
+// that field. A copy routine that decides "flat: a plain assignment copies it all" from the direct fields only (or that
+// descends one level only, or that ignores arrays) copies such a value shallowly. There is one type per depth so that
+// each of these partial mistakes is visible on its own (a type holding all three would mask the deeper ones).
+
+// Leaf holds the references of N2Req, two struct levels below the request.
 type Leaf struct {
 	Items []string
 	Notes map[string]string
@@ -74,42 +78,94 @@ type Mid struct {
 	Leaf  Leaf
 }
 
-// NReq is the "references only in nested structs" request (used by value or by pointer depending on the plugin).
-type NReq struct {
+// N1Req: references exactly one struct level down (Inner.Blob, Inner.Tags).
+type N1Req struct {
 	Text  string
 	Num   int64
-	Inner Sub    // references one struct level down
-	Mid   Mid    // references two struct levels down
-	Pair  [2]Sub // references inside the elements of an array
+	Inner Sub
 }
 
-// NResp is the response type of the nested-request plugins.
-type NResp NReq
+// N2Req: references exactly two struct levels down (Mid.Leaf.*); Mid itself is flat.
+type N2Req struct {
+	Text string
+	Num  int64
+	Mid  Mid
+}
 
-const (
-	plugActVal   = "verif/pc18.ActionValue"   // non-check plugin, value-typed request (Req)
-	plugActPtr   = "verif/pc18.ActionPointer" // non-check plugin, pointer-typed request (*Req)
-	plugCheckVal = "verif/pc18.CheckValue"    // check plugin, value-typed request
-	plugCheckPtr = "verif/pc18.CheckPointer"  // check plugin, pointer-typed request
-	plugCheckNil = "verif/pc18.CheckNil"      // check plugin without request (Req == nil), like the repository's own test CheckPlugin
+// N3Req: references only inside the elements of an array field. (Go arrays are excepted from secret scrubbing, as
+// documented by clone.Secure — that is C17's business — but the C18 statement has no exception for them.)
+type N3Req struct {
+	Text string
+	Num  int64
+	Pair [2]Sub
+}
 
-	plugActNestVal   = "verif/pc18.ActionNestedValue"   // non-check plugin, value-typed NReq
-	plugActNestPtr   = "verif/pc18.ActionNestedPointer" // non-check plugin, *NReq
-	plugCheckNestVal = "verif/pc18.CheckNestedValue"    // check plugin, value-typed NReq
-	plugCheckNestPtr = "verif/pc18.CheckNestedPointer"  // check plugin, *NReq
+type (
+	N1Resp N1Req
+	N2Resp N2Req
+	N3Resp N3Req
 )
 
 // reqKind says how the request of an action is typed.
 const (
-	reqValue       = 0 // Req
-	reqPointer     = 1 // *Req
-	reqNil         = 2 // nil (check plugins only)
-	reqNestValue   = 3 // NReq
-	reqNestPointer = 4 // *NReq
+	reqValue   = 0 // Req
+	reqPointer = 1 // *Req
+	reqNil     = 2 // nil (request-less check plugin, like the repository's own test CheckPlugin)
+	reqN1Value = 3 // N1Req
+	reqN1Ptr   = 4 // *N1Req
+	reqN2Value = 5 // N2Req
+	reqN2Ptr   = 6 // *N2Req
+	reqN3Value = 7 // N3Req
+	reqN3Ptr   = 8 // *N3Req
+	numKinds   = 9
 )
 
-var reqKindNames = [...]string{"value", "pointer", "nil", "nested-value", "nested-pointer"}
+// kindInfo describes one request kind: label, empty request / response objects (as Plugin.Request / Response return them).
+type kindInfo struct {
+	label string
+	// class is "" for Req and nil, otherwise the nested class: "one-level", "two-level", "array".
+	class string
+	ptr   bool
+	req   func() any
+	resp  func() any
+}
 
+var kinds = [numKinds]kindInfo{
+	reqValue:   {label: "value", req: func() any { return Req{} }, resp: func() any { return Resp{} }},
+	reqPointer: {label: "pointer", ptr: true, req: func() any { return &Req{} }, resp: func() any { return &Resp{} }},
+	reqNil:     {label: "nil", req: func() any { return nil }, resp: func() any { return nil }},
+	reqN1Value: {label: "one-level-value", class: "one-level", req: func() any { return N1Req{} }, resp: func() any { return N1Resp{} }},
+	reqN1Ptr:   {label: "one-level-pointer", class: "one-level", ptr: true, req: func() any { return &N1Req{} }, resp: func() any { return &N1Resp{} }},
+	reqN2Value: {label: "two-level-value", class: "two-level", req: func() any { return N2Req{} }, resp: func() any { return N2Resp{} }},
+	reqN2Ptr:   {label: "two-level-pointer", class: "two-level", ptr: true, req: func() any { return &N2Req{} }, resp: func() any { return &N2Resp{} }},
+	reqN3Value: {label: "array-value", class: "array", req: func() any { return N3Req{} }, resp: func() any { return N3Resp{} }},
+	reqN3Ptr:   {label: "array-pointer", class: "array", ptr: true, req: func() any { return &N3Req{} }, resp: func() any { return &N3Resp{} }},
+}
+
+var kindByType = func() map[reflect.Type]int {
+	m := map[reflect.Type]int{}
+	for k, ki := range kinds {
+		if k == reqNil {
+			continue
+		}
+		m[reflect.TypeOf(ki.req())] = k
+		m[reflect.TypeOf(ki.resp())] = k
+	}
+	return m
+}()
+
+// kindOfValue maps a request or response value back to its kind (-1: not one of ours).
+func kindOfValue(v any) int {
+	if v == nil {
+		return reqNil
+	}
+	if k, ok := kindByType[reflect.TypeOf(v)]; ok {
+		return k
+	}
+	return -1
+}
+
+// plug is the one plugin implementation: it accepts exactly the request type of its kind (as a real plugin does).
 type plug struct {
 	name  string
 	check bool
@@ -125,83 +181,34 @@ func (p *plug) Execute(ctx context.Context, req any) (any, *plugins.Error) {
 	return nil, &plugins.Error{Message: "pc18 plugins are never executed", Permanent: true}
 }
 
-// ValidateReq accepts exactly the request type of the plugin (as a real plugin does) and a non-empty Text. It does not
-// look at secure-tagged fields: a default clone legitimately carries "[secret hidden]"/zero values there.
+// ValidateReq accepts exactly the request type of the plugin and a non-empty Text. It does not look at secure-tagged
+// fields: a default clone legitimately carries "[secret hidden]"/zero values there.
 func (p *plug) ValidateReq(req any) error {
-	switch p.kind {
-	case reqNil:
+	if p.kind == reqNil {
 		if req != nil {
 			return fmt.Errorf("%s: request must be nil, got %T", p.name, req)
 		}
 		return nil
-	case reqValue:
-		r, ok := req.(Req)
-		if !ok {
-			return fmt.Errorf("%s: request must be pc18.Req, got %T", p.name, req)
-		}
-		if r.Text == "" {
-			return fmt.Errorf("%s: Text is empty", p.name)
-		}
-		return nil
-	case reqPointer:
-		r, ok := req.(*Req)
-		if !ok || r == nil {
-			return fmt.Errorf("%s: request must be non-nil *pc18.Req, got %T", p.name, req)
-		}
-		if r.Text == "" {
-			return fmt.Errorf("%s: Text is empty", p.name)
-		}
-		return nil
-	case reqNestValue:
-		r, ok := req.(NReq)
-		if !ok {
-			return fmt.Errorf("%s: request must be pc18.NReq, got %T", p.name, req)
-		}
-		if r.Text == "" {
-			return fmt.Errorf("%s: Text is empty", p.name)
-		}
-		return nil
-	case reqNestPointer:
-		r, ok := req.(*NReq)
-		if !ok || r == nil {
-			return fmt.Errorf("%s: request must be non-nil *pc18.NReq, got %T", p.name, req)
-		}
-		if r.Text == "" {
-			return fmt.Errorf("%s: Text is empty", p.name)
-		}
-		return nil
 	}
-	return fmt.Errorf("bad plugin kind %d", p.kind)
-}
-
-func (p *plug) Request() any {
-	switch p.kind {
-	case reqValue:
-		return Req{}
-	case reqPointer:
-		return &Req{}
-	case reqNestValue:
-		return NReq{}
-	case reqNestPointer:
-		return &NReq{}
+	want := reflect.TypeOf(kinds[p.kind].req())
+	if reflect.TypeOf(req) != want {
+		return fmt.Errorf("%s: request must be %s, got %T", p.name, want, req)
+	}
+	v := reflect.ValueOf(req)
+	if v.Kind() == reflect.Ptr {
+		if v.IsNil() {
+			return fmt.Errorf("%s: request is a nil %s", p.name, want)
+		}
+		v = v.Elem()
+	}
+	if v.FieldByName("Text").String() == "" {
+		return fmt.Errorf("%s: Text is empty", p.name)
 	}
 	return nil
 }
 
-func (p *plug) Response() any {
-	switch p.kind {
-	case reqValue:
-		return Resp{}
-	case reqPointer:
-		return &Resp{}
-	case reqNestValue:
-		return NResp{}
-	case reqNestPointer:
-		return &NResp{}
-	}
-	return nil
-}
-
+func (p *plug) Request() any                    { return kinds[p.kind].req() }
+func (p *plug) Response() any                   { return kinds[p.kind].resp() }
 func (p *plug) IsCheck() bool                   { return p.check }
 func (p *plug) RetryPolicy() exponential.Policy { return plugins.FastRetryPolicy() }
 func (p *plug) Init() error                     { return nil }
@@ -209,46 +216,24 @@ func (p *plug) Init() error                     { return nil }
 // pluginName returns the plugin for an action inside a checks group (check) or a sequence with the given request kind.
 func pluginName(check bool, kind int) string {
 	if check {
-		switch kind {
-		case reqValue:
-			return plugCheckVal
-		case reqPointer:
-			return plugCheckPtr
-		case reqNestValue:
-			return plugCheckNestVal
-		case reqNestPointer:
-			return plugCheckNestPtr
-		default:
-			return plugCheckNil
-		}
+		return "verif/pc18.Check/" + kinds[kind].label
 	}
-	switch kind {
-	case reqPointer:
-		return plugActPtr
-	case reqNestValue:
-		return plugActNestVal
-	case reqNestPointer:
-		return plugActNestPtr
-	}
-	return plugActVal
+	return "verif/pc18.Action/" + kinds[kind].label
 }
 
-// newRegistry returns a fresh registry holding the nine test plugins.
+// newRegistry returns a fresh registry holding the test plugins: a check plugin for every request kind and a non-check
+// plugin for every kind except nil.
 func newRegistry() *registry.Register {
 	reg := registry.New()
-	for _, p := range []*plug{
-		{name: plugActVal, kind: reqValue},
-		{name: plugActPtr, kind: reqPointer},
-		{name: plugCheckVal, check: true, kind: reqValue},
-		{name: plugCheckPtr, check: true, kind: reqPointer},
-		{name: plugCheckNil, check: true, kind: reqNil},
-		{name: plugActNestVal, kind: reqNestValue},
-		{name: plugActNestPtr, kind: reqNestPointer},
-		{name: plugCheckNestVal, check: true, kind: reqNestValue},
-		{name: plugCheckNestPtr, check: true, kind: reqNestPointer},
-	} {
-		if err := reg.Register(p); err != nil {
-			panic(fmt.Sprintf("pc18 harness bug: cannot register %s: %v", p.name, err))
+	for k := range kinds {
+		for _, check := range []bool{true, false} {
+			if k == reqNil && !check {
+				continue
+			}
+			p := &plug{name: pluginName(check, k), check: check, kind: k}
+			if err := reg.Register(p); err != nil {
+				panic(fmt.Sprintf("pc18 harness bug: cannot register %s: %v", p.name, err))
+			}
 		}
 	}
 	return reg
